@@ -180,6 +180,11 @@ def check_format(ctx, kind, c, tokens, pts, epoch):
         except ValueError as ex:
             if repeated:
                 ctx.counters["strptime_repeated_field_refused"] = ctx.counters.get("strptime_repeated_field_refused", 0) + 1
+                if full:
+                    # the format determines a full date, time and zone (some of it twice, consistently: the text is
+                    # strftime's own output), so by the statement strptime recovers the point
+                    ctx.violation("strptime_refuses_own_output", dict(sig, exc=type(ex).__name__), case,
+                                  {"equal_to": impl.sstr(p)}, {"text": got, "error": "%s: %s" % (type(ex).__name__, ex)})
             elif full or "Y" in given:
                 ctx.violation("strptime_total", dict(sig, exc=type(ex).__name__), case, "strptime accepts strftime's output",
                               {"text": got, "error": "%s: %s" % (type(ex).__name__, ex)})
